@@ -801,10 +801,20 @@ def case_add_nested_on(ctx):
     rng = ctx.rng
     n = rng.choice([1, 2, 3, 5])
     keys = [rng.randint(0, 3) for _ in range(n)]
-    nf = NestedFrame({"id": np.arange(n, dtype=np.int64), "key": np.array(keys, dtype=np.int64)},
-                     index=pd.Index(gen.rand_labels(rng, n, kind="str")))
     flat = rand_flat_for(ctx, keys)
     flat["index"] = [int(k) if isinstance(k, int) else 99 for k in flat["index"]]
+    # the base frame's own index is irrelevant to a join on a column — also when it happens to look like the keys
+    index_kind = rng.choice(["str", "range", "flat_keys", "flat_keys"])
+    uniq = sorted(set(flat["index"]))
+    if index_kind == "flat_keys" and uniq:
+        n = len(uniq)
+        keys = [rng.choice(uniq + [7]) for _ in range(n)] if rng.random() < 0.5 else rng.sample(uniq, n)
+        index = pd.Index(uniq)
+    elif index_kind == "range":
+        index = pd.RangeIndex(n)
+    else:
+        index = pd.Index(gen.rand_labels(rng, n, kind="str"))
+    nf = NestedFrame({"id": np.arange(n, dtype=np.int64), "key": np.array(keys, dtype=np.int64)}, index=index)
     df = flat_df(flat).reset_index(names="key")
     real = call_real(lambda: frame_view(nf.add_nested(df, "n", on="key")))
     rows = []
@@ -814,8 +824,8 @@ def case_add_nested_on(ctx):
     before = frame_view(nf)
     exp = {"index": before["index"], "cls": "NestedFrame", "cols": before["cols"] + [
         ["n", "nest", {"ty": [[nm, t] for nm, t, _ in flat["cols"]], "rows": rows}]]}
-    ctx.case("add_nested.on_column", {"keys": keys, "flat": flat}, real, None, {"ok": exp}, features=("on",),
-             nontrivial=len(flat["index"]) > 0)
+    ctx.case("add_nested.on_column", {"keys": keys, "flat": flat, "index": index_kind}, real, None, {"ok": exp},
+             features=("on", f"index={index_kind}"), nontrivial=len(flat["index"]) > 0)
 
 
 def case_from_flat(ctx):
@@ -872,8 +882,15 @@ def case_from_lists(ctx, s: Subject):
     n = len(rows)
     labels = gen.rand_labels(rng, n)
     d = {"id": np.arange(n, dtype=np.int64)}
+    chunked = rng.random() < 0.5
     for i, (nm, t) in enumerate(s.ty):
         la = gen.mk_list_array([dict(map(tuple, r))[nm] for r in rows], t)
+        if chunked:
+            # every column in its own chunking: same number of chunks or not, other boundaries, empty chunks
+            k = rng.randint(2, 3)
+            cuts = sorted(rng.randint(0, n) for _ in range(k - 1))
+            bounds = [0] + cuts + [n]
+            la = pa.chunked_array([la.slice(a, b - a) for a, b in zip(bounds, bounds[1:])], type=la.type)
         d[nm] = pd.Series(la, dtype=pd.ArrowDtype(la.type))
     df = NestedFrame(d)
     df.index = pd.Index(labels)
@@ -887,8 +904,8 @@ def case_from_lists(ctx, s: Subject):
     real = call_real(run)
     exp = {"index": [export.label(l) for l in labels], "cls": "NestedFrame", "cols": [
         ["id", "base", "int64", list(range(n))], ["n", "nest", {"ty": s.ty, "rows": weak_rows(rows)}]]}
-    ctx.case(which, {**s.desc(), "labels": labels}, real, None, {"ok": exp}, hyp=s.hyp,
-             features=(which, f"dup={len(set(map(str, labels))) < n}"), nontrivial=s.nontrivial())
+    ctx.case(which, {**s.desc(), "labels": labels, "chunked": chunked}, real, None, {"ok": exp}, hyp=s.hyp,
+             features=(which, f"dup={len(set(map(str, labels))) < n}", f"chunked={chunked}"), nontrivial=s.nontrivial())
 
 
 def case_from_lists_empty(ctx):
